@@ -1614,11 +1614,12 @@ func (p *prog) gen() *op {
 
 // laneHTTPDefault runs a tiny fixed program against a proxy started exactly as documented
 // (no AWS_* tuning): the SDK's default request-checksum mode meets a plain-http endpoint.
-func laneHTTPDefault(c *ev.Ctx) {
+// It reports whether uploads work that way (if not, the programs need the environment workaround).
+func laneHTTPDefault(c *ev.Ctx) bool {
 	p, err := newProg(c, "http-default", 7, nil)
 	if err != nil {
 		c.Inconclusive("gateway start: " + firstLine(err.Error()))
-		return
+		return false
 	}
 	defer p.close()
 	b := "bk-alpha"
@@ -1640,4 +1641,5 @@ func laneHTTPDefault(c *ev.Ctx) {
 	up := &op{kind: "upload-part@sdk-default-checksum-mode", class: "signed", desc: "PUT /" + b + "/m?partNumber=1 (proxy without AWS_REQUEST_CHECKSUM_CALCULATION)", mut: true, bucket: b, dom: "up", slot: 1,
 		req: p.upReq("PUT", u, func(*side) []string { return []string{"partNumber", "1"} }, nil, func(*side) []byte { return body }, "", nil)}
 	p.step(up)
+	return p.n2xx[put.kind] > 0 && p.n2xx[up.kind] > 0
 }
